@@ -116,6 +116,7 @@ class Framer(tasking.Tasker):
         self.frameCounter = 0 #frame name registry counter for framer
 
         self.moots = odict()  # moot framers to be cloned keyed by clone tag
+        self.lineage = ()  # names of the moot originals this framer was cloned from, outermost first
         self.inode = ''  # framer inode prefix
 
         self.tag = tag if tag else self.name  # main framer local unique clone tag when cloned or .name if not
@@ -296,6 +297,13 @@ class Framer(tasking.Tasker):
                                      human=human,
                                      count=count)
 
+            if original.name in self.lineage:  # a moot that clones itself, directly or through others
+                raise excepting.ResolveError("Clone loop",
+                                             name=original.name,
+                                             value=self.name,
+                                             human=human,
+                                             count=count )
+
             if tag in self.auxes:  # tag must be unique to framer
                 raise excepting.ResolveError("Clone tag already in use",
                                              name=self.name,
@@ -305,6 +313,7 @@ class Framer(tasking.Tasker):
             name = "_".join((self.surname, tag))  # replace name with full name
             clone = original.clone(name=name, tag=tag, schedule=schedule)
             self.auxes[tag] = clone
+            clone.lineage = self.lineage + (original.name, )
 
             # inode is new (aux verb clone via)  clone.inode is old (framer moot via)
             if inode != "mine":  # new != "mine" so resultant is new
